@@ -2,74 +2,49 @@
     weakened silently. *)
 From V Require Import Base.Util Gql.Ast Peg.Peg Gen.C07_grammar_gen C07.Builder C07.Model.
 From V Require Import C08.Model C08.Spec C08.SiteType Gen.C08_sites_gen C08.Sites C08.ProofsRender C08.ProofsEscape C08.Shape C08.ProofsShape C08.ProofsMerge C08.ImportsCost C08.Proofs C08.Properties.
-From V Require C03.Properties C07.Fuel C11.Properties C12.Properties C13.Properties.
+From V Require C07.Fuel C11.Properties C12.Properties C13.Properties.
 Local Open Scope N_scope.
 
 Check (C08_render_total : forall files pos msg addl,
   render_guard files pos addl = true -> exists out, print_positioned_error files pos msg addl = ROk out).
 Check (C08_skip_chars_total : forall line k, skip_chars line k = ROk (skipn (N.to_nat k) line)).
 Check (C08_render_index_refuted : print_positioned_error [] (Some (mkRP 0 0 0 false)) (s "m") [] = RPanic P_index).
-Check (C08_escape_total_partial : forall ds,
-  ds <> [] -> forallb is_hex ds = true -> is_scalar_value (hexval ds) = true -> code_to_char ds = BOk (hexval ds)).
-Check (C08_escape_panic_iff : forall ds k,
-  ds <> [] -> forallb is_hex ds = true ->
-  (code_to_char ds = BPanic k <->
-   (k = P_radix /\ 4294967296 <= hexval ds) \/
-   (k = P_char /\ hexval ds < 4294967296 /\ is_scalar_value (hexval ds) = false))).
-Check (C08_escape_total_refuted :
-  parse_class false w_lone_surrogate = 10 + P_char /\ parse_class false w_above_max = 10 + P_char /\
-  parse_class false w_overflow = 10 + P_radix /\ parse_class true w_description = 10 + P_char).
-Check (C08_builder_shapes_ok : forall inp file k,
-  parse_operation_document file inp = PPanic k -> k = P_char \/ k = P_radix).
-Check (C08_builder_shapes_ok_ts : forall inp file k,
-  parse_type_system_document file inp = PPanic k -> k = P_char \/ k = P_radix).
+Check (C08_escape_errors_are_diagnostics :
+  parse_class false w_lone_surrogate = 1 /\ parse_class false w_trailing_first = 1 /\
+  parse_class false w_above_max = 1 /\ parse_class false w_overflow = 1 /\ parse_class true w_description = 1).
+Check (C08_escape_characters_parse : parse_class false w_long_but_small = 0 /\ parse_class false w_surrogate_pair = 0).
+Check (C08_builder_shapes_ok : forall inp file k, parse_operation_document file inp <> PPanic k).
+Check (C08_builder_shapes_ok_ts : forall inp file k, parse_type_system_document file inp <> PPanic k).
 Check (C08_parse_total : forall file inp,
-  ((exists d, parse_operation_document file inp = POk d) \/ parse_operation_document file inp = PErr \/
-   parse_operation_document file inp = PPanic P_char \/ parse_operation_document file inp = PPanic P_radix) /\
-  ((exists d, parse_type_system_document file inp = POk d) \/ parse_type_system_document file inp = PErr \/
-   parse_type_system_document file inp = PPanic P_char \/ parse_type_system_document file inp = PPanic P_radix)).
+  ((exists d, parse_operation_document file inp = POk d) \/ parse_operation_document file inp = PErr) /\
+  ((exists d, parse_type_system_document file inp = POk d) \/ parse_type_system_document file inp = PErr)).
 Check (C08_parse_forest_generated : forall (R : Type) (g : grammar R) inp fuel start ps,
-  parse_with g fuel start inp = Ok ps -> exists t, gent g inp true ANon (Call start) t ps).
+  parse_with g fuel start inp = Ok ps -> exists t, gent g inp (fun _ => True) true ANon (Call start) t ps).
 Check (C08_all_sites_accounted : forallb accounted scanned_sites = true).
 Check (C08_no_stale_entries : forallb still_scanned table = true).
 Check (C08_resolve_total : forall doc,
   (exists e, C11.Model.resolve doc = inl e) \/ (exists out, C11.Model.resolve doc = inr out)).
 Check (C08_imports_terminate : forall st root_path root,
   C13.Model.resolve_imports st root_path root <> inl C13.Model.OutOfFuel).
-Check (C08_imports_total_partial : forall st root_path root ks,
-  C13.Spec.closed_b st root_path root ks = true ->
-  C13.Spec.names_guard_b st ks (C13.Spec.all_lines st root_path root ks) = true ->
-  C13.Model.resolve_imports st root_path root <> inl C13.Model.PanicMissingTarget).
-Check (C08_imports_total_refuted :
-  exists root, C13.Model.resolve_extensions C13.Proofs.main_dup_items = inr root
-               /\ C13.Model.resolve_imports C13.Proofs.st_dup C13.Proofs.k_main root = inl C13.Model.PanicMissingTarget
-               /\ ~ C13.Spec.BadLine C13.Proofs.st_dup C13.Proofs.k_main (C13.Model.fimports root)).
-Check (C08_emit_total_partial : forall defs o,
-  (forall n, C12.Spec.reach (C12.Model.get_frag defs) (op_sel o) n -> C12.Model.get_frag defs n <> None) ->
-  exists ds, C12.Model.operation_runtime defs o = C12.Model.Ok ds).
-Check (C08_emit_total_refuted :
-  exists defs f,
-    In (DFrag f) defs
-    /\ (forall o n, In (DOp o) defs -> ~ C12.Spec.reach (C12.Model.get_frag defs) (op_sel o) n)
-    /\ C12.Model.runtime_defs defs (DFrag f) = C12.Model.Panic C12.Model.msg_fragment_not_found
-    /\ C12.Model.document_runtime_texts (mkOpDoc pos0 defs) = C12.Model.Panic C12.Model.msg_fragment_not_found).
-Check (C08_check_then_generate_refuted :
-  exists S D, C03.Model.check_operation_document S D = [] /\ C03.Spec.rule_ok S D C03.Spec.R_fields_exist = false).
-Check (C08_merge_unchecked_refuted :
-  check_then_tree w_merge_schema w_merge_fields = Some ([], Some (C01.Model.Err C01.Model.EMergeFields)) /\
-  check_then_tree w_merge_schema w_merge_trees = Some ([], Some (C01.Model.Err C01.Model.EMergeTrees))).
+Check (C08_imports_total : forall st root_path root,
+  (exists ds, C13.Model.resolve_imports st root_path root = inr ds) \/
+  (exists file p, C13.Model.resolve_imports st root_path root = inl (C13.Model.FileNotFound file p)) \/
+  (exists n file p, C13.Model.resolve_imports st root_path root = inl (C13.Model.FragmentNotFound n file p))).
 Check (C08_imports_linear : forall st root_path root,
   fst (resolve_imports_c st root_path root) = C13.Model.resolve_imports st root_path root /\
   (snd (resolve_imports_c st root_path root) <= length st)%nat).
+Check (C08_emit_total_partial : forall defs o,
+  (forall n, C12.Spec.reach (C12.Model.get_frag defs) (op_sel o) n -> C12.Model.get_frag defs n <> None) ->
+  exists ds, C12.Model.operation_runtime defs o = C12.Model.Ok ds).
+Check (C08_merge_unchecked_refuted :
+  check_then_tree w_merge_schema w_merge_fields = Some ([], Some (C01.Model.Err C01.Model.EMergeFields)) /\
+  check_then_tree w_merge_schema w_merge_trees = Some ([], Some (C01.Model.Err C01.Model.EMergeTrees))).
 
-Print Assumptions C08_imports_linear.
-Print Assumptions C08_merge_unchecked_refuted.
 Print Assumptions C08_render_total.
 Print Assumptions C08_skip_chars_total.
 Print Assumptions C08_render_index_refuted.
-Print Assumptions C08_escape_total_partial.
-Print Assumptions C08_escape_panic_iff.
-Print Assumptions C08_escape_total_refuted.
+Print Assumptions C08_escape_errors_are_diagnostics.
+Print Assumptions C08_escape_characters_parse.
 Print Assumptions C08_builder_shapes_ok.
 Print Assumptions C08_builder_shapes_ok_ts.
 Print Assumptions C08_parse_total.
@@ -78,8 +53,7 @@ Print Assumptions C08_all_sites_accounted.
 Print Assumptions C08_no_stale_entries.
 Print Assumptions C08_resolve_total.
 Print Assumptions C08_imports_terminate.
-Print Assumptions C08_imports_total_partial.
-Print Assumptions C08_imports_total_refuted.
+Print Assumptions C08_imports_total.
+Print Assumptions C08_imports_linear.
 Print Assumptions C08_emit_total_partial.
-Print Assumptions C08_emit_total_refuted.
-Print Assumptions C08_check_then_generate_refuted.
+Print Assumptions C08_merge_unchecked_refuted.
